@@ -13,7 +13,7 @@ RULE = ("(a) linear networks (orders 0-1, conversions, production, degradation, 
 ASSUMPTIONS = ["scipy.linalg.expm / solve_ivp are the reference integrators, accepted only when two independent references agree to 1e-8",
                "comparison tolerance 2e-5*(1+max|x_ref|) per species (>100x the observed LSODA error at rtol=atol=1.5e-8)"]
 RUN_OPTS = {"batch_size": 6, "timeout_per_case": 90.0}
-MINIMA = {"*": {"trajectories_compared": 150, "rows_compared": 5000, "linear_cases": 20, "nonlinear_cases": 40, "time_dependent_cases": 5}}
+MINIMA = {"*": {"trajectories_compared": 150, "rows_compared": 5000, "linear_cases": 20, "nonlinear_cases": 40, "time_dependent_cases": 5, "history_runs": 100}}
 
 
 def gen_case(rnd, i):
@@ -168,6 +168,31 @@ def run_case(case):
         calls["DeterministicSimulator.py_simulate(safe)"] = lambda: np.array(DeterministicSimulator().py_simulate(prep(SafeModelCSimInterface(M)), tp.copy()).py_get_result())
         calls["py_simulate_model(safe=True)"] = lambda: py_simulate_model(tp.copy(), Model=M, stochastic=False, safe=True)[species].to_numpy(dtype=float)
         C["safe_runs"] += 1
+    # histories: the interface is prepared first and another model's interface is prepared / simulated before it is used;
+    # its trajectory must still be the solution of ITS model's equations
+    def distractor():
+        Y = specmod.build_model(dict(sp, params={k: (v * 1.7 if isinstance(v, (int, float)) and (k.startswith(("k", "g")) or True) else v) for k, v in sp["params"].items()},
+                                     x0={k: float(v) + 1.5 for k, v in sp["x0"].items()}), "ctor")
+        return Y
+
+    def prepared_then_other_prepared():
+        itx = prep(ModelCSimInterface(M))
+        prep(ModelCSimInterface(distractor()))
+        return np.array(DeterministicSimulator().py_simulate(itx, tp.copy()).py_get_result())
+
+    def reused_after_other_model():
+        itx = prep(ModelCSimInterface(M))
+        DeterministicSimulator().py_simulate(itx, tp.copy())
+        try:
+            py_simulate_model(tp.copy(), Model=distractor(), stochastic=False)
+        except Exception:
+            pass
+        return np.array(DeterministicSimulator().py_simulate(itx, tp.copy()).py_get_result())
+
+    if case.get("history", True):
+        calls["DeterministicSimulator.py_simulate(interface prepared before another model's)"] = prepared_then_other_prepared
+        calls["DeterministicSimulator.py_simulate(interface re-used after another model was simulated)"] = reused_after_other_model
+        C["history_runs"] += 2
     frac_hill = any(r["type"] in ref.HILL and ref.pval(r["fields"]["n"], sp["params"]) != int(ref.pval(r["fields"]["n"], sp["params"])) for r in sp["reactions"])
     for name, fn in calls.items():
         try:
